@@ -85,6 +85,20 @@ def run(ctx, rep):
                     if nm == "ignore_ctime":
                         ig = True
         rep.check("C11.a", "ctime-bypass-only-ignore_ctime", ig, where=c.loc(), what="the ctime comparison is skipped only under ignore_ctime")
+    # the node returned as Matched is the one the predicate accepted: Iterator::find(predicate)
+    finds = [(bb, t) for bb, t in IP.calls() if "callee" in t and re.search(r"Iterator(>)?::find$", callee(t) + " " + callee_decl(t))]
+    okfind = False
+    if len(finds) == 1 and len(pred) == 1:
+        bb, t = finds[0]
+        passes_pred = any(d_[0] == "stmt" and d_[4][0] == "agg" and d_[4][1][0] == "closure" and d_[4][1][1] == pred[0].path for a in t["args"][1:] for d_ in IP.defs().get(op_local(a), []))
+        okfind = passes_pred and bb in flow.backward_slice(IP, [0])["call_sites"]
+    rep.check("C11.a", "matched-node-is-the-accepted-one", okfind, where=IP.loc(), what="is_parent returns the parent node selected by find(predicate) (with several parents: the one that actually matched)" if okfind else
+              "is_parent does not return the node for which the match predicate held (e.g. the first parent's entry when any parent matches): stale content is reused")
+    # time stamps are recorded with sub-second resolution (a change within the same second is visible)
+    for m in prog.find(r"^rustic_core::backend::ignore::mapper::LocalSourceSaveOptions::ctime$"):
+        sl = flow.backward_slice(m, [0])
+        hasns = any(c.endswith("MetadataExt::ctime_nsec") or c.endswith("::ctime_nsec") for c in sl["calls"])
+        rep.check("C11.a", "ctime-resolution", hasns, where=m.loc(), what="the recorded ctime includes nanoseconds" if hasns else "the recorded ctime is truncated to whole seconds: a ctime change within the same second is invisible to parent matching")
     # ---- C11.b -------------------------------------------------------------------------------------
     PR = prog.find1(r"^rustic_core::archiver::parent::Parent::process$")
     clone_from = [bb for bb, t in PR.calls() if "callee" in t and re.search(r"Clone>::clone_from$|::clone_from$", callee(t)) and "content" in (flow.backward_slice(PR, op_place(t["args"][0]))["fields"] if op_place(t["args"][0]) else set())]
@@ -101,6 +115,19 @@ def run(ctx, rep):
                 if took_true and cl:
                     ok = True
         rep.check("C11.b", "reuse-guarded", ok, where=where(PR, clone_from[0]), what="the parent's content is reused only if every chunk id is in the index (all(has_data))" if ok else "a file's content is taken from the parent WITHOUT checking that all its chunks are still indexed")
+        # the chunks tested are the PARENT node's content - the very list that is copied
+        t_cf = PR.term(clone_from[0])
+
+        def recv_root(e):
+            # strip iterator / reference adaptors along the receiver chain
+            while e[0] == "call" and re.search(r"::(flatten|iter|into_iter|as_ref|as_deref|deref|copied|cloned|as_slice)$", e[1]) and e[2]:
+                e = e[2][0]
+            return e
+        copied = recv_root(flow.expr_of(PR, t_cf["args"][1]))
+        alls = [(bb, t) for bb, t in PR.calls() if "callee" in t and re.search(r"Iterator::all$|Iterator>::all$", callee(t) + " " + callee_decl(t))]
+        oks = any(recv_root(flow.expr_of(PR, t["args"][0])) == copied and copied[0] in ("proj", "path") and "content" in copied[2] for bb, t in alls)
+        rep.check("C11.b", "tested-list-is-copied-list", oks, where=where(PR, clone_from[0]), what="the chunk ids tested against the index are the parent node's content that is copied into the new node" if oks else
+                  "the index test runs over a different list than the parent content that is reused (e.g. the still-empty content of the new node): the test is vacuous")
         # the other edge yields NotFound
         nf = [bi for bi, blk in enumerate(PR.blocks) for s in blk["s"] if s[0] == "=" and s[2][0] == "agg" and s[2][1][0] == "adt" and s[2][1][1].endswith("ParentResult") and s[2][1][2] == "NotFound"]
         rep.check("C11.b", "missing-chunks-reread", bool(nf), where=PR.loc(), what="if a chunk is missing the result is NotFound (the file is read again)")
